@@ -1332,20 +1332,20 @@ fn main() {
 	let reg: Vec<J> = check.regression_cases("json-values");
 	check.enumerate("json-values-regressions", reg, false, oracle_value);
 	check.enumerate("json-values-fixed", fixed_values(), false, oracle_value);
-	check.phase("json-values", check.cases(150_000, 6_000_000), || jvalue(depth, size, width, maxstr, rep), oracle_value);
+	check.phase("json-values", check.cases(600_000, 12_000_000), || jvalue(depth, size, width, maxstr, rep), oracle_value);
 
 	// (b)
 	let max_entries = if thorough { 16 } else { 8 };
 	let reg: Vec<Doc> = check.regression_cases("tilejson-docs");
 	check.enumerate("tilejson-docs-regressions", reg, false, oracle_doc);
 	check.enumerate("tilejson-docs-fixed", fixed_docs(), false, oracle_doc);
-	check.phase("tilejson-docs", check.cases(15_000, 800_000), || doc(max_entries), oracle_doc);
+	check.phase("tilejson-docs", check.cases(60_000, 1_500_000), || doc(max_entries), oracle_doc);
 
 	// (c)
 	let reg: Vec<CCase> = check.regression_cases("containers");
 	check.enumerate("containers-regressions", reg, false, oracle_container);
 	check.enumerate("containers-fixed", fixed_containers(), false, oracle_container);
-	check.phase("containers", check.cases(2000, 100_000), || ccase(max_entries), oracle_container);
+	check.phase("containers", check.cases(6000, 150_000), || ccase(max_entries), oracle_container);
 
 	server_phase(&mut check);
 	check.finish();
